@@ -76,3 +76,20 @@ CHECKS['C04'] = dict(
              plan={'quick': 'jit_vs_interp=12000,jit_light=1500', 'thorough': 'jit_vs_interp=600000,jit_light=60000'}),
     ],
 )
+
+CHECKS['C07'] = dict(
+    level='exploration',
+    rule='(1) generated (imm32, mod.cond, d) with d constructed so the first test is taken and carry patterns forced (low bits near 2^b, cimm bits b+1..b+7 ones): '
+         'implementation\'s decoded constant/mask == spec cimm/mask, never three taken in a row (also through the executor); (2) generated programs (branchy-biased): '
+         'from decoded bytecode alone, every CBRANCH target is before the branch, is the last writer (or -1), loop body has no writer of the branch register and no '
+         'branch; JIT jz rel32 read back and compared with the code offset after the last writer; (3) interpreter stepped through its public per-instruction entry over '
+         '24 iterations per program with one branch-to-start steered to be taken: executed instructions per iteration <= 3|P|, no forward jump; JIT runs branchy programs '
+         'under the C04 equality oracle with a hang watchdog. Non-trivial: first test taken (1); program with >= 1 CBRANCH (2); >= 1 branch actually taken (3)',
+    assumptions=COMMON_ASSUME + ['reading of InstructionByteCode (type, idst/isrc identity) as "writes register"; JIT read-back only recognises the 0F 84 rel32 form (else inconclusive, never an alarm)'],
+    stages=[
+        dict(name='branch', harness=H('c07', ['harness/c07_branch.cpp'], cflags=['-fno-access-control']),
+             plan={'quick': 'arith=3000000,structure=20000,dynamic=20000', 'thorough': 'arith=200000000,structure=1000000,dynamic=1000000'}),
+        dict(name='jit', harness=H('c04', ['harness/c04_jit.cpp'], ldflags=PROG_LD),
+             plan={'quick': 'branchy=4000', 'thorough': 'branchy=200000'}, timeout={'quick': 1800, 'thorough': 6 * 3600}),
+    ],
+)
